@@ -33,8 +33,9 @@ type Call struct {
 	Audit       bool     `json:"audit"`
 	LimitAbsent bool     `json:"limit_absent"`
 	LimitWire   int      `json:"limit_wire"`
-	TIDs        []string `json:"tids"`    // id list as sent, trimmed (blank entries and repetitions kept)
-	Managed     []string `json:"managed"` // managed routes of the instance configuration
+	TIDs        []string `json:"tids"`     // id list as sent, trimmed (blank entries and repetitions kept)
+	Managed     []string `json:"managed"`  // managed routes of the instance configuration
+	ActorOK     bool     `json:"actor_ok"` // the configured actor policy of scoped managed operations admits the actor sent
 	Refused     bool     `json:"refused"`
 	Status      int      `json:"status"` // HTTP status; MCP: 200 / 0
 	Code        string   `json:"code"`
@@ -104,7 +105,7 @@ func (s *Store) begin(kind string) (*Call, Wire) {
 		managed = append(managed, rt)
 	}
 	sort.Strings(managed)
-	c := &Call{Surface: s.env.Surface, Kind: kind, Form: "global", Audit: !w.NoAudit, LimitAbsent: true, TIDs: []string{}, Managed: managed,
+	c := &Call{Surface: s.env.Surface, Kind: kind, Form: "global", Audit: !w.NoAudit, LimitAbsent: true, TIDs: []string{}, Managed: managed, ActorOK: !s.env.ActorDenied,
 		AudChanged: -1, AudMatched: -1}
 	s.last = c
 	return c, w
@@ -306,7 +307,7 @@ func (s *Store) selector(route string) (form string, l Label) {
 		return "global", Label{}
 	}
 	switch s.env.Surface {
-	case HTTPSelector:
+	case HTTPSelector, MCPDirect:
 		return "selector", l
 	case HTTPScoped, MCPScoped:
 		return "path", l
@@ -346,7 +347,7 @@ func (s *Store) mutateFilter(op string, req queue.MessageManageFilterRequest) (n
 	if IsMCP(s.env.Surface) {
 		args := map[string]any{}
 		auditArgs(w, args)
-		if form == "path" {
+		if form != "global" {
 			args["application"], args["endpoint_name"] = lab.App, lab.Ep
 		} else if req.Route != "" {
 			args["route"] = req.Route
@@ -495,7 +496,7 @@ func (s *Store) ListMessages(req queue.MessageListRequest) (queue.MessageListRes
 	var err error
 	if IsMCP(s.env.Surface) {
 		args := map[string]any{}
-		if form == "path" {
+		if form != "global" {
 			args["application"], args["endpoint_name"] = lab.App, lab.Ep
 		} else if req.Route != "" {
 			args["route"] = req.Route
